@@ -182,11 +182,15 @@ func knownMatches(k knownFinding, key string) bool {
 	if k.key.MatchString(key) {
 		return true
 	}
-	i := strings.LastIndex(key, "/")
-	if i < 0 || !strings.Contains(key[i:], "+") || !strings.Contains(key[i:], "before-") {
+	// held sites start with "before-"; site names may contain '/' (env/conn.close, harness/ctx)
+	i := strings.Index(key, "/before-")
+	if i < 0 || !strings.Contains(key[i:], "+before-") {
 		return false
 	}
-	for _, site := range strings.Split(key[i+1:], "+") {
+	for n, site := range strings.Split(key[i+1:], "+before-") {
+		if n > 0 {
+			site = "before-" + site
+		}
 		if k.key.MatchString(key[:i+1] + site) {
 			return true
 		}
